@@ -27,4 +27,15 @@ def tryFrom (t : BType) (v : α) : Option α :=
 def fromJsonNumber (t : BType) (v : α) : Option α :=
   if t.jsonChecked then tryFrom t v else some v
 
+/-- bit patterns of the twelve documented bounds (−12, 12, −90, 90, −180, 180, −420, 8848, 100, 1050,
+    −90, 57); the driver's `rangecheck` request compares them with the bit patterns of the
+    regenerated constants on every run, Thm C18 `boundBits_values` proves their exact values -/
+def boundBits : BType → Nat × Nat
+  | .Gmt => (0xC028000000000000, 0x4028000000000000)
+  | .Latitude => (0xC056800000000000, 0x4056800000000000)
+  | .Longitude => (0xC066800000000000, 0x4066800000000000)
+  | .Elevation => (0xC07A400000000000, 0x40C1480000000000)
+  | .Pressure => (0x4059000000000000, 0x4090680000000000)
+  | .Temperature => (0xC056800000000000, 0x404C800000000000)
+
 end IPT
